@@ -166,12 +166,51 @@ def gen_second_connection(r, n):
     return cases
 
 
+def gen_carry_over(r, n):
+    """the count is per connection: a connection ends for another reason (peer close, read error, framing error, disable +
+    enable) with 1..N-1 timeouts pending, and the next connection then gets timeouts - it is dropped only after N of its own"""
+    cases = []
+    nid = 0
+    for mt in (2, 3, 4, 5):
+        for pend in range(1, mt):
+            for end in ('Z', 'R', 'G', 'DE', 'Zinflight'):
+                for more in sorted(set([mt - pend, mt - 1, mt])):
+                    cfg = {'cap': 16, 'handles': 1, 'mt': mt, 'rmin': 20 * MS, 'rmax': 40 * MS}
+                    sim = cl.Sim(cfg)
+                    sc = []
+                    connect(sim, sc)
+                    i = 0
+                    for _ in range(pend):
+                        add(sim, sc, ('S', i, 'r', 5 * MS, r.choice('fcx')))
+                        add(sim, sc, ('T', cl.fires_at(sim.until) - sim.now))
+                        i += 1
+                    if end == 'DE':
+                        add(sim, sc, ('D', 'f'))
+                    elif end == 'Zinflight':
+                        add(sim, sc, ('S', i, 'r', 5 * MS, 'f'))
+                        i += 1
+                        add(sim, sc, ('Z',))
+                    else:
+                        add(sim, sc, (end,))
+                    connect(sim, sc)
+                    for _ in range(more):
+                        if sim.ph != 'Idle':
+                            break
+                        add(sim, sc, ('S', i, 'r', 5 * MS, r.choice('fcx')))
+                        add(sim, sc, ('T', cl.fires_at(sim.until) - sim.now))
+                        i += 1
+                    cases.append((cfg, sc))
+    r.shuffle(cases)
+    return cases[:n]
+
+
 def gen_c12(r, quick):
     cases = gen_boundary(r)
     cases += gen_split(r, 150 if quick else 1500)
     cases += gen_patterns(r, 300 if quick else 3000)
     cases += gen_slow_write(r, 40 if quick else 300)
     cases += gen_second_connection(r, 40 if quick else 300)
+    cases += gen_carry_over(r, 120 if quick else 400)
     w = {'S': 6, 'F': 4, 'P': 1.5, 'Q': 5, 'T': 9, 'E': 0.3, 'D': 0.2, 'H': 0, 'A': 0.05, 'X': 0.1, 'W': 0.3, 'V': 0.6,
          'Z': 0.2, 'R': 0.2, 'G': 0.2, 'L': 0.2}
     for _ in range(1500 if quick else 10000):
